@@ -22,12 +22,25 @@ import (
 type Read struct {
 	Slot     int  `json:"slot"`
 	AddFirst bool `json:"add_first"` // AddDependency before reading (required for strobe slots)
+	// SkipRuns: the read is left out on runs r with r%4 in this set (dependencies that come and go)
+	SkipRuns []int `json:"skip_runs,omitempty"`
 }
 
 type Child struct {
 	Key      int     `json:"key"`
 	Reads    []Read  `json:"reads"`
 	Children []Child `json:"children,omitempty"`
+	// SkipRuns: as a top-level child of a rerunner, not requested on runs r with r%4 in this set
+	SkipRuns []int `json:"skip_runs,omitempty"`
+}
+
+func skipped(runs []int, run int) bool {
+	for _, r := range runs {
+		if run%4 == r {
+			return true
+		}
+	}
+	return false
 }
 
 type Comp struct {
@@ -100,6 +113,7 @@ type Hits struct {
 	Purge                  int32
 	Expire                 int32
 	Overlap                int32
+	ChildSkipped           int32
 }
 
 type runner struct {
@@ -264,7 +278,9 @@ func (rn *runner) compute(ctx context.Context) (interface{}, error) {
 	}
 	for i, rd := range rn.comp.Reads {
 		fire(i, false)
-		m.read(ctx, rd, seen, rn, run, i)
+		if !skipped(rd.SkipRuns, run) {
+			m.read(ctx, rd, seen, rn, run, i)
+		}
 		fire(i, true)
 	}
 	rn.mu.Lock()
@@ -274,6 +290,10 @@ func (rn *runner) compute(ctx context.Context) (interface{}, error) {
 	}
 	rn.mu.Unlock()
 	for _, ch := range rn.comp.Children {
+		if skipped(ch.SkipRuns, run) {
+			atomic.AddInt32(&m.hits.ChildSkipped, 1)
+			continue
+		}
 		sub, err := m.child(ctx, ch, rn, run)
 		if err != nil {
 			return nil, err
@@ -285,7 +305,7 @@ func (rn *runner) compute(ctx context.Context) (interface{}, error) {
 	rn.mu.Lock()
 	reused := false
 	for _, ch := range rn.comp.Children {
-		if run > 1 && rn.childRuns[ch.Key] == before[ch.Key] {
+		if run > 1 && !skipped(ch.SkipRuns, run) && rn.childRuns[ch.Key] == before[ch.Key] {
 			reused = true
 		}
 	}
@@ -542,7 +562,7 @@ func Run(c Case, checkCleanup bool) (Result, string, error) {
 	h := m.hits
 	for k, v := range map[string]bool{"write-after-dep-during-run": h.WriteDuringRunAfterDep > 0, "write-between-capture-and-add": h.WriteMid > 0,
 		"shared-slot-write": h.SharedSlotWrite > 0, "stop-during-run": h.StopDuringRun > 0, "cache-reuse": h.CacheReuse > 0,
-		"child-recomputed": h.ChildRecomputed > 0, "purge": h.Purge > 0, "expire": h.Expire > 0, "yields": len(c.Yields) > 0} {
+		"child-recomputed": h.ChildRecomputed > 0, "purge": h.Purge > 0, "expire": h.Expire > 0, "yields": len(c.Yields) > 0, "child-skipped-some-run": h.ChildSkipped > 0} {
 		if v {
 			res.Labels = append(res.Labels, k)
 		}
@@ -557,7 +577,11 @@ func genReads(t *rapid.T, nslots int, max int) []Read {
 	n := rapid.IntRange(0, max).Draw(t, "nreads")
 	var out []Read
 	for i := 0; i < n; i++ {
-		out = append(out, Read{Slot: rapid.IntRange(0, nslots-1).Draw(t, "slot"), AddFirst: rapid.Bool().Draw(t, "addfirst")})
+		rd := Read{Slot: rapid.IntRange(0, nslots-1).Draw(t, "slot"), AddFirst: rapid.Bool().Draw(t, "addfirst")}
+		if rapid.IntRange(0, 3).Draw(t, "dynread") == 0 {
+			rd.SkipRuns = rapid.SliceOfNDistinct(rapid.IntRange(0, 3), 1, 2, rapid.ID[int]).Draw(t, "readskips")
+		}
+		out = append(out, rd)
 	}
 	return out
 }
@@ -601,7 +625,11 @@ func genChildren(t *rapid.T, nslots, depth int) []Child {
 	n := rapid.IntRange(0, 3).Draw(t, "nchildren")
 	var out []Child
 	for i := 0; i < n; i++ {
-		out = append(out, defs[rapid.IntRange(0, len(defs)-1).Draw(t, "key")])
+		ch := defs[rapid.IntRange(0, len(defs)-1).Draw(t, "key")]
+		if rapid.IntRange(0, 2).Draw(t, "dynchild") == 0 {
+			ch.SkipRuns = rapid.SliceOfNDistinct(rapid.IntRange(0, 3), 1, 2, rapid.ID[int]).Draw(t, "childskips")
+		}
+		out = append(out, ch)
 	}
 	return out
 }
